@@ -78,12 +78,32 @@ func (m *detModel) answer(in []*schema.Message) *schema.Message {
 	return schema.AssistantMessage("final "+tag+" "+mon.H8(strings.Join(seen, ";")), nil)
 }
 
-func (m *detModel) Generate(_ context.Context, in []*schema.Message, _ ...model.Option) (*schema.Message, error) {
-	return m.answer(in), nil
+// tagOpts is the implementation-specific option of detModel and echoTool: every option value adds a tag;
+// what a call received becomes part of its answer, so an option of another call changes the result.
+type tagOpts struct{ tags []string }
+
+func modelTag(t string) model.Option {
+	return model.WrapImplSpecificOptFn(func(o *tagOpts) { o.tags = append(o.tags, t) })
 }
 
-func (m *detModel) Stream(_ context.Context, in []*schema.Message, _ ...model.Option) (*schema.StreamReader[*schema.Message], error) {
+func toolTag(t string) tool.Option {
+	return tool.WrapImplSpecificOptFn(func(o *tagOpts) { o.tags = append(o.tags, t) })
+}
+
+func (m *detModel) answerWith(in []*schema.Message, opts []model.Option) *schema.Message {
 	msg := m.answer(in)
+	if o := model.GetImplSpecificOptions(&tagOpts{}, opts...); len(o.tags) > 0 && len(msg.ToolCalls) == 0 {
+		msg.Content += " model-options=" + strings.Join(o.tags, ",")
+	}
+	return msg
+}
+
+func (m *detModel) Generate(_ context.Context, in []*schema.Message, opts ...model.Option) (*schema.Message, error) {
+	return m.answerWith(in, opts), nil
+}
+
+func (m *detModel) Stream(_ context.Context, in []*schema.Message, opts ...model.Option) (*schema.StreamReader[*schema.Message], error) {
+	msg := m.answerWith(in, opts)
 	var chunks []*schema.Message
 	if len(msg.ToolCalls) > 0 {
 		// the tool calls are in the first chunk (contract of the default checker); arguments are split
@@ -111,6 +131,10 @@ func (t *echoTool) Info(context.Context) (*schema.ToolInfo, error) {
 	return &schema.ToolInfo{Name: t.name, Desc: t.name}, nil
 }
 
-func (t *echoTool) InvokableRun(_ context.Context, args string, _ ...tool.Option) (string, error) {
+func (t *echoTool) InvokableRun(_ context.Context, args string, opts ...tool.Option) (string, error) {
+	o := tool.GetImplSpecificOptions(&tagOpts{}, opts...)
+	if len(o.tags) > 0 {
+		return t.name + ":" + args + " tool-options=" + strings.Join(o.tags, ","), nil
+	}
 	return t.name + ":" + args, nil
 }
